@@ -138,6 +138,8 @@ def main():
         elif a[0] == "-p": props.append(a[1]); a = a[2:]
         elif a[0] == "-j": jobs = int(a[1]); a = a[2:]
     names = a or sorted(os.path.basename(p) for p in glob.glob(os.path.join(HERE, "seeded", "C*-*")))
+    # changes that a later repair of the library made harmless are kept for the record only
+    names = [n for n in names if "status" not in json.load(open(os.path.join(HERE, "seeded", n, "meta.json")))]
     with cf.ThreadPoolExecutor(jobs) as ex:
         for name, res in ex.map(lambda n: run_one(n, tier, props), names):
             mp = os.path.join(HERE, "seeded", name, "meta.json")
